@@ -28,6 +28,27 @@ def cold_tree(rng, variants, depth):
     return rng.choice(variants) + [cold_tree(rng, variants, depth - 1)]
 
 
+def has_from_iter(pipe):
+    if isinstance(pipe, list) and pipe:
+        if pipe[0] in ("iter", "repeat"):
+            return True
+        return any(has_from_iter(x) for x in pipe[1:] if isinstance(x, list))
+    return False
+
+
+def drop_taps_over_iter(pipe):
+    """`from_iter` stops pulling once its observer is finished (fix 13); the tree model emits the
+    whole sequence (the difference is invisible to every subscriber, but a `tap` above such a source
+    would count fewer calls) — no tap above from_iter-based sources."""
+    if not isinstance(pipe, list) or not pipe:
+        return pipe
+    new = [drop_taps_over_iter(x) if isinstance(x, list) and x and isinstance(x[0], str) and
+           x[0] not in ("n", "e", "p", "l", "s", "o") else x for x in pipe]
+    if new[0] == "tap" and has_from_iter(new):
+        return new[-1]
+    return new
+
+
 class C13(Prop):
     pid = "C13"
     lean_module = "RxModel.Props.C13"
@@ -49,7 +70,7 @@ class C13(Prop):
         out = []
         n = 8000 if tier == "quick" else 80000
         for i in range(n):
-            pipe = cold_tree(rng, variants, rng.randint(1, 5))
+            pipe = drop_taps_over_iter(cold_tree(rng, variants, rng.randint(1, 5)))
             evs = [["q", "counters"]]
             k = rng.randint(2, 4)
             for j in range(k):
@@ -64,7 +85,7 @@ class C13(Prop):
                             {"kind": "cold"}))
         for i in range(n // 4):
             nhot = rng.randint(1, 2)
-            pipe = pg.rand_tree(rng, variants, rng.randint(1, 4), nhot)
+            pipe = drop_taps_over_iter(pg.rand_tree(rng, variants, rng.randint(1, 4), nhot))
             evs = [["q", "counters"]]
             for _ in range(rng.randint(2, 8)):
                 if rng.random() < 0.3:
